@@ -209,3 +209,33 @@ func VerifC17_DAO() {
 	}
 	zz.Reach("C17.dao")
 }
+
+// VerifC11_GovHandlers: a governance message that is rejected (wrong sender, unknown action, overdraft) or whose
+// handler panics has written nothing to any store.
+func VerifC11_GovHandlers() {
+	g := vNewGov()
+	if err := g.ak.MintCoins(g.ctx, types.DAOAccountName, sdk.NewCoins(sdk.NewCoin(sdk.DefaultStakeDenom, sdk.NewInt(1000)))); err != nil {
+		panic(err)
+	}
+	senders := []sdk.Address{g.a, g.b, g.s}
+	sender := senders[zz.Choice("sender", 3)]
+	var msg sdk.Msg
+	switch zz.Choice("msg", 4) {
+	case 0:
+		msg = types.MsgChangeParam{FromAddress: sender, ParamKey: "auth/MaxMemoCharacters", ParamVal: g.cdc.MustMarshalJSON(zz.Uint64("v", 0, 1<<62))}
+	case 1:
+		msg = types.MsgChangeParam{FromAddress: sender, ParamKey: "auth/NoSuchParam", ParamVal: g.cdc.MustMarshalJSON(uint64(1))}
+	case 2:
+		amt := sdk.NewIntFromBigInt(zz.Big("amount", sdk.NewInt(1).BigInt(), sdk.NewInt(5000).BigInt()))
+		msg = types.MsgDAOTransfer{FromAddress: sender, ToAddress: g.s, Amount: amt, Action: types.DAOTransferString}
+	case 3:
+		amt := sdk.NewIntFromBigInt(zz.Big("amount", sdk.NewInt(1).BigInt(), sdk.NewInt(5000).BigInt()))
+		msg = types.MsgDAOTransfer{FromAddress: sender, Amount: amt, Action: types.DAOBurnString}
+	}
+	snap := g.ms.Snapshot()
+	ok, crashed := vRun(g, msg)
+	if !ok || crashed {
+		zz.Assert("C11.gov.failed-handler-wrote-nothing", g.ms.Same(snap))
+	}
+	zz.Reach("C11.gov.handlers")
+}
